@@ -64,6 +64,13 @@ def reject_variants(doc):
             d9 = copy.deepcopy(d0)
             d9[i]["extra_first"] = [raw("Path", "Path", "{", '  "%s": @znone' % par[0], "}")]
             res.append(("prop_undefined_type", d9))
+            # an "or" rule: every alternative must be a scalar, wherever it stands in the list
+            for nm, alts in (("prop_or_object_second", '["integer", "@zobj"]'), ("prop_or_object_first", '["@zobj", "integer"]'),
+                             ("prop_or_object_last_of_three", '["string", "integer", "@zobj"]')):
+                dd = copy.deepcopy(d0)
+                dd[i]["extra_first"] = [raw("Path", "Path", "{", '  "%s": 1 // {or: %s}' % (par[0], alts), "}")]
+                dd.append(raw("TYPE", "TYPE @zobj", "{", '  "deep": 1', "}"))
+                res.append((nm, dd))
             # the body is a reference to a type that is not an object (one per kind of non-object type)
             for nm, tdef in (("ref_regex_type", ["TYPE @zpv regex", "/ab+/"]), ("ref_any_type", ["TYPE @zpv any"]),
                              ("ref_scalar_type", ["TYPE @zpv", "1"]), ("ref_array_type", ["TYPE @zpv", "[1]"]),
@@ -110,7 +117,7 @@ def shortcut_forms(doc):
 
 # variants whose fault sits in the one Path directive that reject_variants() writes at the head of a URL block
 SINGLE_SITE = ("unused_property", "nested_object", "array_body", "empty_object", "prop_object_type", "prop_array_type",
-               "prop_undefined_type", "ref_regex_type", "ref_any_type", "ref_scalar_type", "ref_array_type",
+               "prop_undefined_type", "prop_or_object_second", "prop_or_object_first", "prop_or_object_last_of_three", "ref_regex_type", "ref_any_type", "ref_scalar_type", "ref_array_type",
                "ref_undefined_type", "ref_chain_to_regex")
 
 
